@@ -27,6 +27,8 @@ from fractions import Fraction
 import numpy as np
 
 ID = "C04"
+# computational entry points whose results are watched by the engine's retained-result oracle (mc/explore.py)
+RETAIN = [('hydrodiy.stat.metrics', 'corr'), ('hydrodiy.stat.metrics', 'confusion_matrix'), ('hydrodiy.stat.metrics', 'binary'), ('hydrodiy.stat.metrics', 'nse'), ('hydrodiy.stat.metrics', 'bias'), ('hydrodiy.stat.metrics', 'kge')]
 RULE = ("nested enumeration, each case generated once: (det) transform x every (obs, sim) pair of "
         "length n over a dyadic alphabet shifted into the transform's domain, every bias type, nse, kge, "
         "excludenull False/True; the transformed-mean simulation of every obs; Identity: 3 common affine "
